@@ -202,6 +202,10 @@ def _sweep(task):
     return {"id": task["id"], "n": n, "n_inv": n_inv, "acc": acc}
 
 
+class _RunAway(Exception):
+    """Raised by the step wrapper when a call takes more steps than floor(D/step) + 2."""
+
+
 def _run_duration(task):
     """One REAL scenario: consecutive propagateTo calls; returns the raw record of the run.
 
@@ -223,16 +227,22 @@ def _run_duration(task):
         tgt_id = next(iter(app.target_agents))
         real_step = app.stepForward
 
+        budget = [0]
+
         def traced_step():
             real_step()
             out["ev"].append({"e": "step", "clockMs": cal.ms_between(app.clock.datetime_epoch, start),
                               "jd": float(app.clock.julian_date_epoch)})
+            budget[0] -= 1
+            if budget[0] < 0:       # more steps than any reading of the request allows: stop the run-away
+                raise _RunAway      # (the extra steps are in the trace and TLC rejects them)
 
         app.stepForward = traced_step          # wrapper on the instance, no source hook
         for c, D in enumerate(reqs):
             out["ev"].append({"e": "begin", "D": D})
             before = len(out["ev"])
             raised = 0
+            budget[0] = D // dt + 2
             try:
                 if via == "api":
                     su.run_for(app, D)
@@ -241,6 +251,8 @@ def _run_duration(task):
                     app.propagateTo(getTargetJulianDate(jd_from, timedelta(seconds=D)))
             except ValueError:
                 raised = 1                      # "delta less than physics time step"
+            except _RunAway:
+                raised = 2
             out["counts"].append(len(out["ev"]) - before)
             out["ev"].append({"e": "end", "raised": raised})
         db = app.database
